@@ -765,7 +765,16 @@ type qQuery struct {
 	Ordered bool // ORDER BY is total: compare in order
 	Limit   bool
 	Tables  []*qTable
-	Shape   string // names a shape that triage tied to a known finding or a grammar exclusion
+	Shape   string // space-separated names of shapes that triage tied to a known finding or a grammar exclusion
+}
+
+func (q qQuery) has(shape string) bool {
+	for _, s := range strings.Fields(q.Shape) {
+		if s == shape {
+			return true
+		}
+	}
+	return false
 }
 
 func qOrderList(rt *rapid.T, refs []qColRef, must []qColRef) string {
@@ -998,10 +1007,17 @@ func qGenJoin(rt *rapid.T, tables []*qTable, three bool) (qQuery, bool) {
 	}
 	p := qPickPair(rt, pairs, "join.on")
 	on := fmt.Sprintf("%s = %s", p.l.Expr, p.r.Expr)
+	shape := ""
+	if p.l.col().Kind == qkDec {
+		shape += " decimal_join_key"
+	}
 	switch rapid.IntRange(0, 5).Draw(rt, "join.extra") {
 	case 0:
 		p2 := rapid.SampledFrom(pairs).Draw(rt, "join.on2")
 		on += fmt.Sprintf(" AND %s %s %s", p2.l.Expr, rapid.SampledFrom([]string{"=", "=", "<", ">=", "<>"}).Draw(rt, "join.op2"), p2.r.Expr)
+		if p2.l.col().Kind == qkDec {
+			shape += " decimal_join_key"
+		}
 	case 1:
 		on += " AND " + qGenAtom(rt, rb)
 	}
@@ -1018,6 +1034,9 @@ func qGenJoin(rt *rapid.T, tables []*qTable, three bool) (qQuery, bool) {
 			p3 := qPickPair(rt, pairs3, "join.on3")
 			kind3 := rapid.SampledFrom([]string{"INNER JOIN", "INNER JOIN", "LEFT JOIN"}).Draw(rt, "join.kind3")
 			from += fmt.Sprintf(" %s {T:%s} c ON %s = %s", kind3, tc.Name, p3.l.Expr, p3.r.Expr)
+			if p3.l.col().Kind == qkDec {
+				shape += " decimal_join_key"
+			}
 			all = append(all, rc...)
 			used = append(used, tc)
 			aliases = "a,b,c"
@@ -1046,9 +1065,12 @@ func qGenJoin(rt *rapid.T, tables []*qTable, three bool) (qQuery, bool) {
 			keyed = false
 		}
 	}
+	if !keyed {
+		shape += " keyless_join"
+	}
 	switch rapid.IntRange(0, 5).Draw(rt, "join.shape") {
 	case 0:
-		return qQuery{SQL: fmt.Sprintf("SELECT %sCOUNT(*) FROM %s%s", hint, from, w), Form: "joincount", Tables: used}, true
+		return qQuery{SQL: fmt.Sprintf("SELECT %sCOUNT(*) FROM %s%s", hint, from, w), Form: "joincount", Tables: used, Shape: shape}, true
 	case 1, 2:
 		if keyed {
 			pk := qPKRefs(all)
@@ -1058,9 +1080,9 @@ func qGenJoin(rt *rapid.T, tables []*qTable, three bool) (qQuery, bool) {
 			if lim {
 				q += qLimit(rt)
 			}
-			return qQuery{SQL: q, Form: "joinorder", Ordered: true, Limit: lim, Tables: used}, true
+			return qQuery{SQL: q, Form: "joinorder", Ordered: true, Limit: lim, Tables: used, Shape: shape}, true
 		}
 	}
 	_, proj := qProjection(rt, all, nil)
-	return qQuery{SQL: fmt.Sprintf("SELECT %s%s FROM %s%s", hint, proj, from, w), Form: "join", Tables: used}, true
+	return qQuery{SQL: fmt.Sprintf("SELECT %s%s FROM %s%s", hint, proj, from, w), Form: "join", Tables: used, Shape: shape}, true
 }
